@@ -435,6 +435,10 @@ func runC08(c *eng.Ctx) {
 		c.Check(len(fe) > 0 && !via, "consume-only-when-ready", cons.Instr, f, "nothing is consumed while the channel is not ready", "")
 	})
 
+	// ---- 8. the leader's read barrier / GC barrier is the minimum over the followers' ACKNOWLEDGED positions (shared with C06):
+	// a consumed-but-unacknowledged position must stay readable so that a rewind after a fault can re-send it
+	c.Rule("PROV", "pkg/queue.fanOutQueue.Sync{min-over-all-groups}", func() { syncRule(c) })
+
 	c.Observe("two replication streams into one follower partition could interleave ReplicaLog's check and Put (check-then-act across calls) — outside the per-channel quantifier, not armed")
 	c.Observe("remoteReplicator suspend: GetLiveNode and isSuspend CAS are not atomic with the online notification (possible lost wake-up) — liveness, not armed")
 }
